@@ -220,6 +220,10 @@ package codegen
 
 // C16: the introspection constructors are only reachable through the gate functions, and the gate refuses when
 // introspection is disabled - whatever alias, fragment or variable the query used to reach __schema/__type.
+//@ trusted fmt.Errorf(format, a) (err)
+//@   ensures err != nil
+//@   nopanic
+//@   pure
 //@ trusted errors.New(text) (err)
 //@   ensures err != nil
 //@   nopanic
